@@ -90,6 +90,9 @@ def check_homog(model, R, P, names=None):
             R.incomplete_at(P + '.HOMOG', 'synapgrad.cpu_ops.' + kname, 'kernel not found')
             continue
         for k, (lin_in, _) in sorted(slots.items()):
+            if lin_in not in kf.pos_params or any(p not in kf.pos_params for p in present):
+                R.incomplete_at(P + '.HOMOG', kf.qualname, 'the table names parameter(s) %s of %s that no longer exist' % (sorted({lin_in} | set(present)), kname))
+                continue
             try:
                 dom = L.Linear({lin_in})
                 dom.present, dom.absent = set(present) | {lin_in}, set(absent)
